@@ -238,8 +238,17 @@ Definition brank (p : bpc) : nat :=
 Record obs := mkO { o_ret : Z; o_cell : sstate; o_into : nat; o_run : nat; o_shut : nat;
                     o_aw : list (option sstate) }.
 
+(* What is observed of a returned await.  For the two StateWatcher waits the exact state seen
+   at the return depends on whether tokio polls the awaiter or the background task first after
+   a stop (both are woken by the same send; the order is not fixed), so Stopping / Stopped /
+   StoppedWithError are observed as one class there; wait_stopping_or_stopped returns () anyway. *)
+Definition canon (k : akind) (r : sstate) : sstate :=
+  match k with
+  | AWhileStarted | AWaitStopping => if Nat.leb 3 (srank r) then Stopping else r
+  | _ => r
+  end.
 Definition aw_result (a : awaiter) : option sstate :=
-  match a_pc a with ADone r => Some r | _ => None end.
+  match a_pc a with ADone r => Some (canon (a_kind a) r) | _ => None end.
 
 Definition observe (ret : Z) (s : sys) : obs :=
   mkO ret (cell s) (n_into s) (n_run s) (n_shut s) (map aw_result (aws s)).
